@@ -71,6 +71,37 @@ def c03(run):
                       extra=["-seed", run.seed])
         run.add_tlc("GEN_C03_" + name, res, "S->I: Scan!RunScan (reference interpreter) on stratum %s (%s); the harness compares the structural result and the "
                     "per-iteration (position found, environment verdict) sequence recorded by the hooks in SubRule::apply" % (name, what[name]))
+    # implementation -> specification over the FULL inventory: recorded applications validated by the reference machine in TLC
+    asts = gen_rules(run, "f0")
+    out = os.path.join(BUILD, "rec-C03-f0.ndjson")
+    summary, _ = run_harness(["record", "C03", asts, out, str(10 if run.tier == "thorough" else 6)], env=run.known_env(), timeout=6000)
+    run.add_summary("record_C03_f0", summary, traces=False)
+    res = run_tlc("TV_Scan", "tv/TV_Scan.tla", "tv/TV_Scan.cfg", env=dict(run.known_env(), TRACE=out), timeout=6000, heap="12g")
+    run.add_tlc("TV_Scan", res, "I->S: applications of basic-fragment rules with literals from all 365 cardinals and matrices over all 26 features, on words over the rule's own literals, recorded from the "
+                                "real interpreter (result + per-iteration events) and validated by TLC against Scan!RunScanF")
+    nrec = summary["extra"].get("records", 0)
+    rejected = set(json.loads(x)["rejected_record"] for x in res.printed if isinstance(x, str) and "rejected_record" in x)
+    skipped = set(json.loads(x)["skipped_record"] for x in res.printed if isinstance(x, str) and "skipped_record" in x)
+    if res.distinct != 2 * nrec:
+        raise ToolError("TV_Scan examined %d states for %d records" % (res.distinct, nrec))
+    corrupt, bad = set(), []
+    for line in open(out + ".meta"):
+        m = json.loads(line)
+        if m.get("corrupt"):
+            corrupt.add(m["id"])
+        elif m["id"] in rejected and len(bad) < 20:
+            bad.append(m)
+    missed = [i for i in corrupt if i not in rejected and i not in skipped]
+    if missed or not (corrupt - skipped):
+        raise ToolError("TV_Scan self-test: %d corrupted copies, %d of them accepted (the trace spec does not bind)" % (len(corrupt), len(missed)))
+    run.cov["jobs"]["TV_Scan"].update({"records": nrec, "judged": nrec - len(skipped), "outside_fragment": len(skipped),
+                                       "corrupted_copies_rejected": len(corrupt & rejected), "rejected": len(rejected - corrupt)})
+    run.cov["traces_validated_against_impl"] += nrec - len(skipped) - len(corrupt)
+    for m in bad:
+        run.violation("TV_Scan", {"rejected_record": m})
+    for f in (asts, out, out + ".meta"):
+        try: os.remove(f)
+        except OSError: pass
     run.cov["rule"] = ("rules of the basic fragment over inventory {a,t,i}: 8 inputs (IPA, [+syll], [-syll], [], C, two sets) x 5 outputs (IPA or feature matrix) x environments over "
                        "{a, t, [+syll], C, {a,t}, $, #}; strata sampled by rule index % Stride = seed % Stride (quick) or densely (thorough); words: all segment strings in all syllabifications "
                        "without in-syllable runs at any stage; non-trivial = the rule rewrites at least one segment")
